@@ -22,6 +22,7 @@ func init() {
 			"R3": "settlement mapping (as C01.R2)",
 			"R4": "hand-index-list writers and sources: full-circle seat-map scan under the dealt-in flag; leave remap: id → position in the NEW player list, hand index list rebuilt from it for every old entry in order, under status ∈ {opened, playing, settled} with the live status; no in-place filtering; entry 0 of the hand list: dealer seat when a dealt-in player holds it, else the nearest active seat counter-clockwise from the SB seat (held) or BB seat; seats skipped only when unset; list starts empty",
 			"R5": "translator definitions",
+			"R8": "players are taken off the table (and the hand index list re-mapped) only at the request of a leave: every call of the leave path passes its caller's own leave-id parameter, unchanged, and the callers are exported operations — a join that is refused, rolled back or retried never evicts anybody from the running hand",
 			"R7": "the dealt-in flags deciding membership of the hand list are copied from the seat manager for every player, on the clone, after this hand's rotation (as C05.R1)",
 			"R6": "joins do not shift: append to the player list; seat map copied and patched only at new seats",
 		},
@@ -33,6 +34,7 @@ func init() {
 
 func checkC02(c *Ctx) {
 	p := c.P
+	checkLeaveOnlyOnRequest(c, "R8")
 	lc := p.lifecycle()
 	if lc.openFn == nil || lc.startFn == nil {
 		c.Bad("R1", "anchors", "-", "open/start step not found")
@@ -607,6 +609,25 @@ func checkLeaveRemap(c *Ctx, rule string) {
 				}
 			}
 			c.Check(why == "", rule, "leave-remap:hand-index-order", p.InstrPos(ci), "for each old hand entry in order: new position of that entry's player", "after a leave the hand index list no longer denotes the same players in the same order: "+why)
+			// … and no old entry is dropped: the hand engine keeps its own indexes, so every later entry would
+			// shift by one against them
+			if why == "" {
+				if ind := k.Args[1].Strip(); ind.Ind != nil && ind.Ind.Phi != nil {
+					paths, okP := p.loopBodyPaths(ind.Ind.Phi.Block())
+					dropped := 0
+					for _, bp := range paths {
+						if !bp.Exit && !bp.Blocks[ci.Block()] {
+							dropped++
+						}
+					}
+					if !okP {
+						c.Undecided(rule, "leave-remap:every-entry-kept", p.InstrPos(ci), "loop body paths not enumerable")
+					} else {
+						c.Check(dropped == 0, rule, "leave-remap:every-entry-kept", p.InstrPos(ci), "every old hand entry yields one new entry",
+							"a player who was dealt into the running hand and leaves has his entry dropped from the hand index list: the entries after his shift by one against the hand engine's own indexes (actions are accepted for the wrong entry, results are credited to the wrong players, the last result entry has no player)")
+					}
+				}
+			}
 		}
 	}
 	c.Min(rule, "appends to the remapped hand index list", na, 1)
@@ -742,4 +763,46 @@ func notStartingEmpty(p *Prog, ci ssa.CallInstruction) string {
 		}
 	}
 	return ""
+}
+
+// checkLeaveOnlyOnRequest: who may call the leave path, and with which ids.
+func checkLeaveOnlyOnRequest(c *Ctx, rule string) {
+	p := c.P
+	var leavers []*ssa.Function
+	for _, f := range p.Funcs {
+		if !inPkg(p, f, "") {
+			continue
+		}
+		for _, ci := range Calls(f) {
+			if calleeName(ci.Common()) == "SeatManager.RemoveSeats" {
+				leavers = append(leavers, f)
+				break
+			}
+		}
+	}
+	n := 0
+	for _, lf := range leavers {
+		if lf.Parent() != nil {
+			c.Bad(rule, "leave-on-request:"+fnName(lf), p.Pos(lf.Pos()), "seats are removed from inside a closure: the ids removed cannot be tied to a leave request")
+			continue
+		}
+		for _, site := range p.CG().AllCallSitesOf(lf) {
+			n++
+			caller := site.Parent()
+			args := site.Common().Args
+			a := p.Sym(args[len(args)-1])
+			isOwn := false
+			if caller.Parent() == nil {
+				for _, prm := range caller.Params {
+					if typeShort(prm.Type()) == "[]string" && symIsParam(a, prm) {
+						isOwn = true
+					}
+				}
+			}
+			exported := caller.Parent() == nil && caller.Object() != nil && caller.Object().Exported()
+			c.Check(isOwn && exported, rule, "leave-on-request:"+fnName(caller), p.InstrPos(site), "leave path called by an exported operation with its own leave-id parameter",
+				"the leave path is run by "+fnName(caller)+" with "+a.Strip().String()+", which is not the leave-id list that operation was given: players can be taken off the table (and out of the running hand's index list) without a leave request")
+		}
+	}
+	c.Min(rule, "call sites of the leave path", n, 2)
 }
